@@ -271,12 +271,7 @@ def trace_validate(chk, lines, name="trace"):
     cfg = "INIT Init\nNEXT Next\nPOSTCONDITION Done\nCHECK_DEADLOCK FALSE\n"
     r = tlc.run(chk.wd, "Trace_Visitor", cfg, workers=1, timeout=3000, env={"TRACE_FILE": str(f)})
     chk.note_tlc(f"Trace_Visitor/{name}", r, "trace-validation")
-    rej = [int(ln.split(",")[1]) for ln in r.stdout.splitlines() if ln.startswith('<<"REJECT"')]
-    if r.distinct - 1 != len(lines):
-        raise tlc.MachineryError(f"Trace_Visitor consumed {r.distinct - 1} of {len(lines)} lines\n" + r.stdout[-3000:])
-    if not r.ok and not rej:
-        raise tlc.MachineryError("Trace_Visitor failed without naming a line:\n" + r.stdout[-3000:])
-    return rej
+    return sorted(tlc.rejected(r, len(lines), "Trace_Visitor"))
 
 
 def run(chk: core.Check):
